@@ -50,7 +50,9 @@ def transfer (i : Instr) (pc : Nat) (e : Bool) (a : Abs) : Option (List (Nat × 
     if a.mu then (if decide (a.held > 0) then some [(pc + 1 + k, e, { a with nc := true })]
                   else some [(pc + 1, e, a), (pc + 1 + k, e, { a with nc := true })]) else none
   | .incRunning => if a.mu && a.nc then some [(pc + 1, e, { a with held := a.held + 1, adm := true, zero := false, pos := false })] else none
-  | .decRunning => if a.mu && decide (a.held > 0) then some [(pc + 1, e, { a with held := a.held - 1, owe := true, zero := false, pos := false })] else none
+  -- a thread that holds an admission knows running > 0, hence closed = false (closed ⇒ running = 0); the fact stays
+  -- valid after the decrement for as long as it keeps the mutex (only the mutex holder writes `closed`)
+  | .decRunning => if a.mu && decide (a.held > 0) then some [(pc + 1, e, { a with held := a.held - 1, owe := true, zero := false, pos := false, nc := true })] else none
   | .brZero k => if a.mu then some [(pc + 1, e, a), (pc + 1 + k, e, { a with owe := false })] else none
   | .brPos k => if a.mu then some [(pc + 1, e, { a with pos := true }), (pc + 1 + k, e, { a with zero := true })] else none
   | .jmpBack k => if decide (k ≤ pc) then some [(pc - k, e, a)] else none
